@@ -303,6 +303,62 @@ impl TTVector {
     pub fn max_rank(&self) -> usize {
         self.ranks.iter().copied().max().unwrap_or(1)
     }
+
+    /// Checks that cores, shape and ranks describe one consistent train, as every train
+    /// produced by `tt_decompose` does. A train read from a file must pass this before
+    /// `tt_reconstruct` (which indexes the cores by these fields) is called on it.
+    ///
+    /// # Errors
+    /// Returns `InvalidShape` naming the first inconsistency.
+    pub fn validate(&self) -> Result<(), TTError> {
+        let bad = |what: String| Err(TTError::InvalidShape(what));
+
+        if self.cores.len() != self.shape.len() {
+            return bad(format!(
+                "{} cores for {} modes",
+                self.cores.len(),
+                self.shape.len()
+            ));
+        }
+
+        let mut product: usize = 1;
+        let mut left = 1usize;
+        for (k, (core, &mode)) in self.cores.iter().zip(&self.shape).enumerate() {
+            let (r1, n, r2) = core.shape;
+            if n != mode || n == 0 {
+                return bad(format!("core {k} has mode size {n}, shape says {mode}"));
+            }
+            if r1 != left || r2 == 0 {
+                return bad(format!(
+                    "core {k} has ranks ({r1}, {r2}), expected left rank {left}"
+                ));
+            }
+            let expected = r1.checked_mul(n).and_then(|x| x.checked_mul(r2));
+            if expected != Some(core.data.len()) {
+                return bad(format!(
+                    "core {k} holds {} values for shape ({r1}, {n}, {r2})",
+                    core.data.len()
+                ));
+            }
+            product = match product.checked_mul(n) {
+                Some(p) => p,
+                None => return bad("shape product overflows".to_string()),
+            };
+            left = r2;
+        }
+
+        if !self.cores.is_empty() && left != 1 {
+            return bad(format!("last core has right rank {left}"));
+        }
+        if self.original_dim > product {
+            return bad(format!(
+                "original dimension {} exceeds shape product {product}",
+                self.original_dim
+            ));
+        }
+
+        Ok(())
+    }
 }
 
 /// Decompose a vector into TT format using TT-SVD algorithm.
